@@ -321,6 +321,53 @@ def fam_breaks(n, kind="break", loop="while", wrap=None):
     raise ValueError(loop)
 
 
+def fam_break_continue(nb, nc, loop="while", order="bc", nest=0):
+    """a loop holding nb `break`s and nc `continue`s (each in its own `if`), breaks first (`bc`), continues first
+    (`cb`) or interleaved (`mix`); optionally inside `nest` outer loops that hold a break / continue of their own"""
+    br = ["if (local.i == %d) { break }" % i for i in range(nb)]
+    co = ["if (local.i == %d) { continue }" % (100 + i) for i in range(nc)]
+    if order == "bc":
+        stm = br + co
+    elif order == "cb":
+        stm = co + br
+    else:
+        stm = [x for pair in zip(br, co) for x in pair] + br[len(co):] + co[len(br):]
+    body = "\n".join(stm)
+    if loop == "while":
+        s = "while (local.i < 5) {\n%s\nlocal.i++\n}" % body
+    elif loop == "for":
+        s = "for (local.i = 0; local.i < 5; local.i++) {\n%s\n}" % body
+    else:
+        s = "do {\n%s\nlocal.i++\n} while (local.i < 5)" % body
+    for k in range(nest):
+        s = "while (local.j%d < 2) {\nif (local.j%d == 1) { %s }\n%s\nlocal.j%d++\n}" % (k, k, "break" if k % 2 else "continue", s, k)
+    return (s + "\nend\n").encode()
+
+
+def fam_lexical():
+    """deterministic lexical edge cases: long tokens around flex's buffer sizes, NUL bytes, unterminated strings /
+    comments, stray escapes"""
+    out = []
+    for n in (8190, 8191, 8192, 16382, 16383, 16384, 16385, 32768, 70000):
+        out.append(b"println " + b"a" * n + b"\n")
+        out.append(b'println "' + b"s" * n + b'"\n')
+        out.append(b"local." + b"v" * n + b" = 1\n")
+        out.append(b"local.a = " + b"7" * n + b"\n")
+        out.append(b"/*" + b"c" * n)
+        out.append(b"//" + b"c" * n)
+        out.append(b'println "' + b"u" * n)
+    for core in (b'"\x00"', b'"a\x00b"', b'"\x00', b'\x00"', b"\x00", b"println \x00 1\n", b"local.\x00 = 1\n", b"local.a\x00b = 1\n",
+                 b"$\x00\n", b"/*\x00*/println 1\n", b"//\x00\nprintln 1\n", b'println "x\\\x00"\n', b"println 1\n\x00", b"\x00" * 64):
+        out.append(core)
+        out.append(b"println 1\n" + core + b"\nprintln 2\n")
+    for core in (b'"', b'"abc', b'"abc\\', b'"abc\\"', b'"a\nb"', b"/*", b"/* a", b"/*/", b"/**", b"*/", b"/* a */ /*", b'println "a" "', b"local.a\\ = 1\n",
+                 b"println abc\\\n", b"$foo\\\n", b"local.a\\", b"\\", b"println \\\n1\n", b'println "\\q"\n', b"println a\\ b\n", b"local.a\\\\ = 1\n"):
+        out.append(core)
+        out.append(b"println 1\n" + core)
+        out.append(core + b"\nprintln 2\n")
+    return out
+
+
 def fam_cases(n, nested=0, in_catch=False, plain_labels=0, private=0, dup=False):
     parts = []
     for i in range(n):
